@@ -613,8 +613,25 @@ def matrix_overlap(fi, wtext, X, lookup):
     if ov is None:
         return None
     M = None
-    if isinstance(ov, ast.BinOp) and isinstance(ov.op, ast.MatMult) and isinstance(ov.left, ast.Name) and U(ov.right) == ov.left.id + '.T':
-        M = ov.left.id
+    NUM = ('int', 'float', 'np.int64', 'np.float64', 'np.intp', 'np.int32')
+    cast_operand = cast_product = False
+    if isinstance(ov, ast.Call) and isinstance(ov.func, ast.Attribute) and ov.func.attr == 'astype' and len(ov.args) == 1 and U(ov.args[0]) in NUM \
+            and isinstance(ov.func.value, ast.BinOp):
+        ov, cast_product = ov.func.value, True                 # (M @ M.T).astype(int): the product is formed first
+    if isinstance(ov, ast.BinOp) and isinstance(ov.op, ast.MatMult):
+        l_, r_ = ov.left, ov.right
+        for side in ('l', 'r'):
+            x = l_ if side == 'l' else r_
+            if isinstance(x, ast.Call) and isinstance(x.func, ast.Attribute) and x.func.attr == 'astype' and len(x.args) == 1 and U(x.args[0]) in NUM:
+                cast_operand = True                            # M.astype(int) @ M.T: a numeric operand makes the product numeric
+                if side == 'l':
+                    l_ = x.func.value
+                else:
+                    r_ = x.func.value
+        if isinstance(l_, ast.Name) and U(r_) == l_.id + '.T':
+            M = l_.id
+    if False:
+        pass
     elif isinstance(ov, ast.Call) and U(ov.func).split('.')[-1] == 'dot' and len(ov.args) >= 1:
         a0 = ov.func.value if isinstance(ov.func, ast.Attribute) and U(ov.func.value) not in ('np', 'numpy') else (ov.args[0] if ov.args else None)
         a1 = ov.args[-1]
@@ -637,7 +654,7 @@ def matrix_overlap(fi, wtext, X, lookup):
     if univ not in ('self.domain.attrs', 'self.domain', 'self.domain.attrs()'):
         return False, 'the membership columns range over `%s`, which need not contain every attribute of the cliques' % univ, md
     dt = next((k.value for k in md.keywords if k.arg == 'dtype'), None)
-    numeric = dt is not None and U(dt).split('.')[-1] in ('int', 'float', 'int64', 'int32', 'float64', 'intp', 'uint8', 'int8', 'int16')
+    numeric = (dt is not None and U(dt).split('.')[-1] in ('int', 'float', 'int64', 'int32', 'float64', 'intp', 'uint8', 'int8', 'int16')) or cast_operand
     if not numeric:
         return False, 'the membership matrix `%s` is built without a numeric dtype, so it is BOOLEAN and `%s` is a logical product: every non-empty ' \
                       'intersection weighs 1, ties are broken by insertion order and the spanning tree no longer maximises the separators' % (M, U(ov)), md
@@ -699,16 +716,30 @@ def check_tree_connected(ctx):
     # pairs enumerated by POSITION: for i, j in combinations(range(len(X)), 2): edge(X[i], X[j], w(i, j))   (read off the source loop)
     for lp_ in [n for n in ast.walk(fi.node) if isinstance(n, ast.For)]:
         mi = re.fullmatch(r'(itertools\.)?combinations\(range\(len\((\w+)\)\),2\)', U(lp_.iter).replace(' ', ''))
-        if not mi or not (isinstance(lp_.target, ast.Tuple) and len(lp_.target.elts) == 2):
+        me = re.fullmatch(r'(itertools\.)?combinations\(enumerate\((\w+)\),2\)', U(lp_.iter).replace(' ', ''))
+        if not (mi or me) or not (isinstance(lp_.target, ast.Tuple) and len(lp_.target.elts) == 2):
             continue
-        X_ = mi.group(2)
-        i_, j_ = [U(e_) for e_ in lp_.target.elts]
+        X_ = (mi or me).group(2)
+        member_of = None
+        if me:
+            # for (i, c1), (j, c2) in combinations(enumerate(X), 2): c1 is X[i] and c2 is X[j]
+            if not all(isinstance(e_, ast.Tuple) and len(e_.elts) == 2 and all(isinstance(x_, ast.Name) for x_ in e_.elts) for e_ in lp_.target.elts):
+                continue
+            (i_, a_), (j_, b_) = [[x_.id for x_ in e_.elts] for e_ in lp_.target.elts]
+            member_of = {a_: '%s[%s]' % (X_, i_), b_: '%s[%s]' % (X_, j_)}
+            if any(isinstance(n, ast.Name) and isinstance(n.ctx, ast.Store) and n.id in (i_, j_, a_, b_) for st_ in lp_.body for n in ast.walk(st_)):
+                continue
+        else:
+            i_, j_ = [U(e_) for e_ in lp_.target.elts]
         adds_ = [c for c in ast.walk(lp_) if isinstance(c, ast.Call) and isinstance(c.func, ast.Attribute) and c.func.attr == 'add_edge' and U(c.func.value) == G]
         if len(adds_) != 1 or len(lp_.body) != 1:
             continue
         c_ = adds_[0]
         wkw = next((k.value for k in c_.keywords if k.arg == 'weight'), None)
-        if wkw is None or [U(a_).replace(' ', '') for a_ in c_.args[:2]] != ['%s[%s]' % (X_, i_), '%s[%s]' % (X_, j_)]:
+        ends_ = [U(a_).replace(' ', '') for a_ in c_.args[:2]]
+        if member_of:
+            ends_ = [member_of.get(x_, x_) for x_ in ends_]
+        if wkw is None or sorted(ends_) != sorted(['%s[%s]' % (X_, i_), '%s[%s]' % (X_, j_)]):
             continue
         wtext = U(wkw).replace(' ', '').replace('[%s,%s]' % (i_, j_), '[_g0_0,_g0_1]')
         verdict = matrix_overlap(fi, wtext, X_, lookup)
